@@ -15,13 +15,27 @@
 (* tree did).                                                              *)
 (***************************************************************************)
 EXTENDS Integers
-CONSTANTS U, W, MaxV, Buggy
+CONSTANTS
+  \* @type: Int;
+  U,
+  \* @type: Int;
+  W,
+  \* @type: Int;
+  MaxV,
+  \* @type: Bool;
+  Buggy
 Regs == {1, 2}
-VARIABLES reg, val
+VARIABLES
+  \* @type: Int -> { neg: Bool, mag: Int, heap: Bool };
+  reg,
+  \* @type: Int -> Int;
+  val
 vars == <<reg, val>>
 Abs(i) == IF i < 0 THEN -i ELSE i
 Enc(v, heap) == [neg |-> v < 0, mag |-> Abs(v), heap |-> heap]
+\* @type: ({ neg: Bool, mag: Int, heap: Bool }) => Int;
 Dec(r) == IF r.neg THEN -r.mag ELSE r.mag
+\* @type: ({ neg: Bool, mag: Int, heap: Bool }) => Bool;
 Fast(r) == ~r.heap /\ r.mag < U
 InlineCap(m) == m < W * W
 Init == /\ val \in [Regs -> {-5, -1, 0, 1, 3, 7}]
@@ -30,6 +44,7 @@ Init == /\ val \in [Regs -> {-5, -1, 0, 1, 3, 7}]
 General(z, v) == Enc(v, reg[z].heap \/ ~InlineCap(Abs(v)))
 \* fast path result: sign computed by the inline helper
 FastRes(mag, neg) == [neg |-> IF Buggy THEN neg ELSE (neg /\ mag # 0), mag |-> mag, heap |-> FALSE]
+\* @type: (Int, { neg: Bool, mag: Int, heap: Bool }, Int) => Bool;
 Put(z, r, v) == reg' = [reg EXCEPT ![z] = r] /\ val' = [val EXCEPT ![z] = v]
 Add(z, x, y) == LET v == val[x] + val[y] IN
   IF Fast(reg[x]) /\ Fast(reg[y]) /\ Abs(v) < U
@@ -60,4 +75,13 @@ Bound == \A i \in Regs : Abs(val[i]) <= MaxV
 LikeMathBig == \A i \in Regs : Dec(reg[i]) = val[i]
 ZeroNotNegative == \A i \in Regs : reg[i].mag = 0 => ~reg[i].neg
 InlineFits == \A i \in Regs : ~reg[i].heap => InlineCap(reg[i].mag)
+\* ---- unbounded safety with Apalache: the invariants are inductive for ALL integer register values (no MaxV bound)
+CInit == U = 4 /\ W = 4 /\ MaxV = 60 /\ Buggy = FALSE
+CInitBuggy == U = 4 /\ W = 4 /\ MaxV = 60 /\ Buggy = TRUE
+IndInv == /\ LikeMathBig /\ ZeroNotNegative /\ InlineFits
+          /\ \A i \in Regs : reg[i].mag >= 0
+IndInit == \E v1, v2, m1, m2 \in Int : \E n1, n2, h1, h2 \in BOOLEAN :
+           /\ val = [i \in Regs |-> IF i = 1 THEN v1 ELSE v2]
+           /\ reg = [i \in Regs |-> IF i = 1 THEN [neg |-> n1, mag |-> m1, heap |-> h1] ELSE [neg |-> n2, mag |-> m2, heap |-> h2]]
+           /\ IndInv
 =============================================================================
